@@ -92,9 +92,10 @@ let () =
     else if String.length line > 6 && String.sub line 0 6 = "cinit " then begin
       (* the user path under a restricted process cpuset: the core of every thread *)
       match words line with
-      | [_; nb; sing; cpus] ->
+      | _ :: nb :: sing :: cpus :: rest when List.length rest <= 1 ->
+        let numcores = match rest with [x] -> int_of_string x | _ -> 0 in
         let allowed = List.sort_uniq compare (List.map int_of_string (String.split_on_char ',' cpus)) in
-        (match user_flat_bindings (List.map z_of_int allowed) (zi sing) (zi nb) with
+        (match user_flat_bindings_nc (List.map z_of_int allowed) (zi sing) (zi nb) (z_of_int numcores) with
          | None -> "CRASH"
          | Some cores ->
            Printf.sprintf "vps=1 total=%d |" (List.length cores)
